@@ -104,3 +104,65 @@ func waveStops(c *rig.Ctx) {
 		}
 	})
 }
+
+// lengthWhileOff: "while off, writes other than to NR52 and the length registers are ignored" -
+// so a length register written while the sound hardware is off is *not* ignored. The length
+// registers do not read back; what was stored shows in how long a note lasts: length data for
+// 3 steps is stored while off, the hardware switched on, the channel started with its length
+// counter enabled, and the status bit must drop after at most 3 length steps (4096 machine
+// cycles each) - not after the 61 or 253 more that a lost store would give.
+func lengthWhileOff(c *rig.Ctx) {
+	c.Require("length_stores_while_off")
+	c.Part("length-while-off", 4*6, func(i int64, r *rig.Rng) {
+		ch := int(i % 4)
+		m := rig.MustNew(rig.BlankROM(0, 0, 0), rig.Opts{})
+		w := m.Mem.Write
+		for k := 0; k < r.Intn(9000); k++ {
+			m.Audio.EndMachineCycle()
+		}
+		w(0xff26, 0x00)
+		for k := 0; k < r.Intn(9000); k++ {
+			m.Audio.EndMachineCycle()
+		}
+		steps := 3
+		lenReg := []uint16{0xff11, 0xff16, 0xff1b, 0xff20}[ch]
+		if ch == 2 {
+			w(lenReg, uint8(256-steps))
+		} else {
+			w(lenReg, uint8(64-steps)|uint8(r.Intn(4))<<6)
+		}
+		for k := 0; k < r.Intn(5000); k++ {
+			m.Audio.EndMachineCycle()
+		}
+		w(0xff26, 0x80)
+		switch ch {
+		case 0:
+			w(0xff12, 0xf0)
+			w(0xff14, 0xc0)
+		case 1:
+			w(0xff17, 0xf0)
+			w(0xff19, 0xc0)
+		case 2:
+			w(0xff1a, 0x80)
+			w(0xff1e, 0xc0)
+		case 3:
+			w(0xff21, 0xf0)
+			w(0xff23, 0xc0)
+		}
+		if m.Mem.Read(0xff26)&(1<<uint(ch)) == 0 {
+			c.Violate("length-while-off-not-started", fmt.Sprintf("channel %d: NR52=%02X right after the trigger (length for %d steps stored while off)", ch+1, m.Mem.Read(0xff26), steps), nil)
+			return
+		}
+		limit := steps*4096 + 16
+		t := 0
+		for ; t < limit && m.Mem.Read(0xff26)&(1<<uint(ch)) != 0; t++ {
+			m.Audio.EndMachineCycle()
+		}
+		if t >= limit {
+			c.Violate("length-store-while-off-lost", fmt.Sprintf("channel %d: length data for %d steps stored to %04X while the sound hardware was off, then power on and a trigger with the length counter enabled: the channel is still on after %d machine cycles (%d length steps)", ch+1, steps, lenReg, t, steps), nil)
+			return
+		}
+		c.Count("length_stores_while_off", 1)
+		c.Exact(1)
+	})
+}
